@@ -53,11 +53,28 @@ ACCESSORS = {
         ST + 'streams::stream::Stream::get_size': 'Atomic::load(self.size_bytes, Ordering::SeqCst{})',
         ST + 'streams::stream::Stream::get_topics_count': 'HashMap::len(self.topics)',
         ST + 'cache::memory_tracker::CacheMemoryTracker::usage_bytes': 'Atomic::load(self.used_memory_bytes, Ordering::SeqCst{})',
+        # what one stored message / batch weighs: the fixed part is the header RetainedMessage::extend writes (offset 8, state 1, timestamp 8, id 16, checksum 4 = 37) + headers length prefix 4
+        '<T as server::streaming::local_sizeable::LocalSizeable>::get_size_bytes': '((37 + Option::unwrap_or(Option::map(self.headers, closure), 4)) + Bytes::len(self.payload))',
+        '<server::streaming::models::messages::RetainedMessage as iggy::utils::sizeable::Sizeable>::get_size_bytes': '((37 + Option::unwrap_or(Option::map(self.headers, closure), 4)) + Bytes::len(self.payload))',
+        '<server::streaming::batching::message_batch::RetainedMessageBatch as iggy::utils::sizeable::Sizeable>::get_size_bytes': '::add(self.length, 24)',
+        '<server::streaming::batching::batch_accumulator::BatchAccumulator as iggy::utils::sizeable::Sizeable>::get_size_bytes': '::add(self.current_size, 24)',
+        '<server::streaming::partitions::partition::Partition as iggy::utils::sizeable::Sizeable>::get_size_bytes': 'Atomic::load(self.size_bytes, Ordering::SeqCst{})',
+        '<server::streaming::topics::topic::Topic as iggy::utils::sizeable::Sizeable>::get_size_bytes': 'Atomic::load(self.size_bytes, Ordering::SeqCst{})',
     },
     'C18': {
         ST + 'deduplication::message_deduplicator::MessageDeduplicator::exists': 'Cache::contains_key(self.cache, id)',
     },
 }
+
+
+def _fold(form):
+    """(16 + 8) -> 24, repeatedly: a sum of literals is the same however it is written"""
+    import re
+    while True:
+        new = re.sub(r'\((\d+) \+ (\d+)\)', lambda m: str(int(m.group(1)) + int(m.group(2))), form)
+        if new == form:
+            return form
+        form = new
 
 
 def check(ctx, rep, prop, rid):
@@ -68,5 +85,5 @@ def check(ctx, rep, prop, rid):
             rep.ob(rid, fn, 'exists', False, None, 'accessor no longer exists (renamed or removed): the rules that name it must be updated')
             continue
         b = ctx.body(fn)
-        got = canon(b.pexpr_local(0), 0, 3)
+        got = _fold(canon(b.pexpr_local(0), 0, 4 if 'get_size_bytes' in fn else 3))
         rep.ob(rid, fn, 'returns ' + want, got == want, '%s:%s' % (b.file, b.line), None if got == want else 'accessor now returns `%s` (confirmed: `%s`)' % (got, want))
